@@ -107,10 +107,42 @@ def sys_cmd(j):
     return sys.modules['j1939.Dm14Query'].Command.READ
 
 
+def inflight_case(dll):
+    """a broadcast transfer accepted while the CA held its address, the address lost (lower NAME) while the transfer is
+    running: afterwards the stack may originate claim traffic only — not the rest of the transfer from the lost address"""
+    w = sim.World(C.REPO)
+    j = w.j
+    st = w.new_stack(dll=dll)
+    name = j.Name(arbitrary_address_capable=0, identity_number=500, manufacturer_code=100)
+    ca = j.ControllerApplication(name, 128, True)
+    st.ecu.add_ca(controller_application=ca)
+    net = sim.Net(w)
+    ca.send_pgn(0, 0xFE, 0xCA, 6, list(range(20 if dll == 'j1939-21' else 200)))
+    net.poke(st)
+    net.run(60000 if dll == 'j1939-21' else 15000)
+    net.inject(0, (6 << 26) | (0xEEFF << 8) | 128, list(j.Name(value=name.value - 1).bytes), 0)
+    net.run(0)
+    if ca.state == ca.State.NORMAL:
+        return None
+    n = len(st.sent)
+    net.run(2_000_000)
+    late = [(hex(fr[1]), fr[3][:8]) for fr in st.sent[n:] if (fr[1] & 0xFF) == 128 and (fr[1] >> 8) & 0x3FFFF != 0xEEFF]
+    if late:
+        return dict(signature=dict(family='inflight-after-loss', dll=dll),
+                    what=f"{len(late)} frame(s) of a running broadcast transfer went out from address 128 after the CA had lost it "
+                         f"(state {ca.state}): first {late[0]}", scenario=dict(dll=dll, frames=late[:4]))
+    return None
+
+
 def oracle(ctx, full):
     rng = random.Random(ctx.seed * 7907 + 13)
     n = ctx.n(150, 5000, full)
     findings, evals, distinct, samples = [], 0, set(), []
+    for dll in ('j1939-21', 'j1939-22'):
+        f = inflight_case(dll)
+        evals += 1
+        if f:
+            findings.append(f)          # listed in known_findings.json (D30); the search goes on
     for _ in range(n):
         bad, desc = history_case(random.Random(rng.getrandbits(48)))
         evals += 1
@@ -125,7 +157,8 @@ def oracle(ctx, full):
                      "a claim history (start, timer firings, claims with lower/higher NAME for its own / next / other addresses), then every send "
                      "entry point and service (send_pgn short/long, send_message, send_request incl. the claim PGN and look-alikes 0xEE01/0x1EE00/"
                      "0xEEFF, Dm1, Dm22, Dm11, DM14, DM16): raises and emits nothing without an address (request for claim from 254), else all "
-                     "frames carry the held address")
+                     "frames carry the held address; plus: a broadcast transfer that is running when the address is lost must not go on from that address "
+                     "(known finding D30)")
 
 
 def replay(ctx, path):
